@@ -23,6 +23,12 @@ def gfOf (w : Nat) : GF :=
 /-- `ReedSolomonDecoder.Decode` over that field (model of property C04) -/
 def rsModel : RSDecoder := fun w received twoS => Gzx.RS.decode (gfOf w) received twoS
 
+/-- the codewords `correctBits` hands to the Reed-Solomon decoder: `rawbits` without its leading
+    `len % w` pad bits, cut into `len / w` words of `w` bits (the `dataWords` array of the Go code) -/
+def receivedWords (layers : Nat) (rawbits : List Bool) : List Nat :=
+  let w := codewordSize layers
+  chunkWords w (rawbits.length / w) (rawbits.drop (rawbits.length % w))
+
 /-- Go `Decoder.Decode` with the library's own Reed-Solomon decoder -/
 def decodeFull (T : Tables) (registered : Nat → Bool) (m : Matrix) (compact : Bool)
     (nbDatablocks nbLayers : Nat) : Res Decoded :=
